@@ -16,6 +16,7 @@ Symbolic, for every symbol side `n ≥ 21` and every 15-bit word:
                         defaults to Q, mode defaults to the classifier's choice.
 -/
 import FastQr.Finite.Tables
+import FastQr.Finite.Template
 import FastQr.Proofs.Lift
 import FastQr.Model.Build
 
@@ -54,6 +55,12 @@ theorem C04_fields (inp : List Nat) (o : Opts) (b : Built)
     refine ⟨rfl, rfl, hv, ?_⟩
     intro m hm
     simp [createMatrix, placeOnMatrix, hm]
+
+/-- **C04 (version information in the symbol)**: in the blank symbol of every version 7..40 the 36
+version-information cells carry the BCH(18,6) word of the version at the positions of Figure 26
+(tier N checker on the model's write lists) -/
+theorem C04_version_cells {v : Nat} (hv : v < 40) : Finite.versionCellsOk v = true :=
+  all_range Finite.versionCellsOk_all v hv
 
 /-! non-vacuity -/
 example : T.formatInfo .Q 3 = 0b011101000000110 := by decide +kernel
